@@ -76,6 +76,63 @@ def srp(vc):
     vc.ensure("O-C13-srp.direction", vc.le(vc.dot(a, p), 0))
 
 
+def _sum_native(vc, K, T):
+    """native replay of the sum obligations: the real _differentialEquation of a real SpecialPerturbations object (EGM96 4x4, real Sun/Moon ephemerides)
+    against the sum assembled column by column from direct formulas (point mass, third body, SRP) and the separately contracted helpers, at jd0 + t/86400"""
+    import datetime
+    import resonaate.dynamics.special_perturbations as sp
+    import resonaate.physics.constants as const
+    from resonaate.physics.bodies import Earth
+    from resonaate.physics.bodies.third_body import Sun
+    from resonaate.physics.bodies.gravitational_potential import loadGeopotentialCoefficients
+    from resonaate.physics.time.stardate import JulianDate, datetimeToJulianDate, julianDateToDatetime
+    from resonaate.physics.transforms.reductions import ReductionParams
+    from resonaate.physics.sensor_utils import calculateSunVizFraction
+    use_srp, use_gr, thrust_on = vc.bool("srp"), vc.bool("gr"), vc.bool("thrust")
+    bodies = [(), ("moon",), ("sun", "moon"), ("sun",)][vc.int("bodies", 0, 3)]
+    jd0 = datetimeToJulianDate(datetime.datetime(2019, 6, 1) + datetime.timedelta(seconds=vc.int("start_off", 0, 86400 * 500)))
+    t = vc.real("t_elapsed", 0, 20 * 86400)
+    dyn = object.__new__(sp.SpecialPerturbations)
+    from resonaate.common.labels import GeopotentialModel
+    c_nm, s_nm = loadGeopotentialCoefficients(GeopotentialModel.EGM96)
+    thrust = np.array([1e-6, -2e-6, 3e-6])
+    dyn.__dict__.update(init_julian_date=jd0, c_nm=c_nm, s_nm=s_nm, degree=4, order=4, third_bodies=sp.thirdBodyFactory(list(bodies)), use_srp=use_srp, sat_ratio=0.02,
+                        use_gr=use_gr, finite_thrust=(lambda x: np.concatenate([thrust, np.zeros(3)])) if thrust_on else None)
+    cols = []
+    for k in range(K):
+        rad = vc.real(f"radius{k}", 6600, 60000)
+        u = vc.vec(f"dir{k}", 3, -1, 1)
+        vc.assume(np.linalg.norm(u) > 0.1)
+        r = rad * u / np.linalg.norm(u)
+        v = vc.vec(f"vel{k}", 3, -8, 8)
+        cols.append((r, v))
+    state = np.concatenate([np.array([c[0][i] for c in cols]) for i in range(3)] + [np.array([c[1][i] for c in cols]) for i in range(3)])
+    got = dyn._differentialEquation(t, state)
+    jd = JulianDate(float(jd0) + t / 86400)
+    Emat = sp._getRotationMatrix(jd, ReductionParams.build(julianDateToDatetime(jd)))
+    sun = np.asarray(Sun.getPosition(jd), dtype=float)
+    ok_v, ok_p = True, True
+    for k, (r, v) in enumerate(cols):
+        a = -float(Earth.mu) * r / np.linalg.norm(r) ** 3
+        a = a + Emat @ sp.nonSphericalAcceleration(Emat.T @ r, Earth.mu, Earth.radius, c_nm, s_nm, 4, 4)
+        for body in dyn.third_bodies:
+            p = np.asarray(body.getPosition(jd), dtype=float)
+            a = a + float(body.mu) * ((p - r) / np.linalg.norm(p - r) ** 3 - p / np.linalg.norm(p) ** 3)
+        if use_srp:
+            d = sun - r
+            a = a + (-const.SOLAR_PRESSURE * 0.02 * (const.AU2KM / np.linalg.norm(d)) ** 2 * d / np.linalg.norm(d)) * calculateSunVizFraction(r, sun) / 1000.0
+        if use_gr:
+            a = a + sp._getGeneralRelativityAcceleration(r, v)
+        if thrust_on:
+            a = a + thrust
+        ok_v = ok_v and bool(np.allclose(got[3 * K + k::K], a, rtol=1e-9, atol=1e-16))
+        ok_p = ok_p and bool(np.array_equal(got[k:3 * K:K], v))
+    vc.ensure(f"O-C13-sum.velocity-rate{T}", ok_v)
+    vc.ensure(f"O-C13-sum.position-rate{T}", ok_p)
+    vc.ensure(f"O-C13-sum.epoch{T}", ok_v)  # (a wrong epoch shows up as a wrong Sun/Moon/rotation term above)
+    vc.ensure(f"O-C13-sum.frames{T}", ok_v)
+
+
 def _sum_harness(K, tier):
     T = f"[K{K}]"
 
@@ -91,8 +148,7 @@ def _sum_harness(K, tier):
         jd0 = vc.real("jd0", 2450000, 2470000)
         Emat = vc.mat("E", 3, 3, -1, 1)
         if not vc.symbolic:
-            for n in (f"O-C13-sum.velocity-rate{T}", f"O-C13-sum.position-rate{T}", f"O-C13-sum.epoch{T}", f"O-C13-sum.frames{T}"):
-                vc.ensure(n, True)
+            _sum_native(vc, K, T)
             return
         for use_srp, use_gr, thrust_on, bodies in [(a, b, c, d) for a in (False, True) for b in (False, True) for c in (False, True)
                                                    for d in ((), ("moon",), ("sun", "moon"))][:: (1 if tier == "thorough" or K == 1 else 5)]:
@@ -205,8 +261,21 @@ def rotation(vc):
     from pyvc import orth
     from contracts import C04
     if not vc.symbolic:
-        vc.ensure("O-C13-rotation.def", True)
-        vc.ensure("O-C13-rotation.orthogonal", True)
+        # native replay: the real function on real reduction parameters against PN * rot3(-GAST) * W assembled from the real helpers
+        import datetime
+        from resonaate.dynamics.special_perturbations import _getRotationMatrix
+        from resonaate.physics.transforms.reductions import ReductionParams
+        from resonaate.physics.time.stardate import datetimeToJulianDate
+        from resonaate.physics.time.conversions import dayOfYear, greenwichApparentTime
+        from resonaate.physics.maths import rot3
+        d = datetime.datetime(2019, 3, 4, 5, 6, 7) + datetime.timedelta(seconds=vc.int("secs", 0, 86400 * 600))
+        red = ReductionParams.build(d)
+        jd = datetimeToJulianDate(d)
+        y, mo, dd, h, mi, sec = jd.calendar_date
+        gast = greenwichApparentTime(y, dayOfYear(y, mo, dd, h, mi, sec + red.dut1) - 1, red.eq_equinox)
+        R = _getRotationMatrix(jd, red)
+        vc.ensure("O-C13-rotation.def", bool(np.allclose(R, red.rot_pn @ rot3(-1.0 * gast) @ red.rot_w, atol=1e-13, rtol=0)))
+        vc.ensure("O-C13-rotation.orthogonal", bool(np.allclose(R.T @ R, np.eye(3), atol=1e-12, rtol=0)))
         return
     vc.stub("resonaate.physics.maths:rot3", C04.rot_stub(3))
     calls = {}
